@@ -14,6 +14,7 @@
 package c19
 
 import (
+	"encoding/hex"
 	"encoding/json"
 	"fmt"
 	"os"
@@ -44,7 +45,29 @@ type Case struct {
 	Global int `json:"global,omitempty"`
 	// Custom: custom dice registered on the VM whose match may span blanks and line breaks: 1 = regex E(\d+)\s*,
 	// 2 = stream parser K<digits><blanks>; positions after such an operand are still those of the offset
+	// 3 = stream parser X that reads its operand with ReadExpr and returns ReadExpr's own error when that fails
 	Custom int `json:"custom,omitempty"`
+	// Bad: raw bytes (hex) inserted into Input at byte offsets, in order, each offset counted in the text built so far:
+	// inputs that are not valid UTF-8 (a JSON string cannot carry them)
+	Bad []BadBytes `json:"bad,omitempty"`
+}
+
+type BadBytes struct {
+	At  int    `json:"at"`
+	Hex string `json:"hex"`
+}
+
+// text is the input as handed to the VM: Input with the Bad bytes inserted.
+func (c Case) text() string {
+	in := c.Input
+	for _, b := range c.Bad {
+		raw, err := hex.DecodeString(b.Hex)
+		if err != nil || b.At < 0 || b.At > len(in) {
+			continue
+		}
+		in = in[:b.At] + string(raw) + in[b.At:]
+	}
+	return in
 }
 
 // newVMFor builds the VM of a case (language, custom dice) and sets the package-wide default; the returned
@@ -86,6 +109,20 @@ func newVMFor(c Case) (*ds.Context, func()) {
 					break
 				}
 				st.Read()
+			}
+			return &ds.CustomDiceParseResult{Matched: true}, nil
+		}, handler)
+	case 3:
+		_ = vm.RegCustomDiceParser(func(ctx *ds.Context, st *ds.CustomDiceStream) (*ds.CustomDiceParseResult, error) {
+			if r, ok := st.Read(); !ok || r != 'X' {
+				return &ds.CustomDiceParseResult{Matched: false}, nil
+			}
+			v, ok, err := st.ReadExpr("")
+			if err != nil {
+				return nil, err
+			}
+			if !ok || v == nil {
+				return &ds.CustomDiceParseResult{Matched: false}, nil
 			}
 			return &ds.CustomDiceParseResult{Matched: true}, nil
 		}, handler)
@@ -234,8 +271,18 @@ func parseBlock(body []string) (block, string) {
 // lineCol returns the 1-based line and rune column of byte offset o, the text of
 // that line (without its '\n') and the 0-based rune index of o inside the line.
 func lineCol(in string, o int) (line, col int, lineText string, onBoundary bool) {
-	onBoundary = o == len(in) || utf8.RuneStart(in[o])
 	start := strings.LastIndexByte(in[:o], '\n') + 1
+	// a boundary of the decoding every UTF-8 reader performs from the start of the line: a byte that belongs to no
+	// well-formed sequence is a unit of its own
+	onBoundary = false
+	for i := start; i <= o; {
+		if i == o {
+			onBoundary = true
+			break
+		}
+		_, size := utf8.DecodeRuneInString(in[i:])
+		i += size
+	}
 	line = 1 + strings.Count(in[:o], "\n")
 	col = 1 + utf8.RuneCountInString(in[start:o])
 	end := strings.IndexByte(in[start:], '\n')
@@ -254,6 +301,11 @@ const truncationWidth = 60
 // judgeQuote relates the quoted text and the caret to the true line and the rune
 // index e of the error inside it.  Returns "" when they agree.
 func judgeQuote(line, q string, caret, e int) (sig, why string) {
+	if !utf8.ValidString(line) {
+		// a line that is not valid UTF-8 may be quoted with U+FFFD in place of each byte no decoder accepts (one
+		// column each, as the position arithmetic counts them)
+		line, q = string([]rune(line)), string([]rune(q))
+	}
 	trimmed := strings.TrimSuffix(line, "\r")
 	if q == line || q == trimmed {
 		if caret != e {
@@ -264,7 +316,7 @@ func judgeQuote(line, q string, caret, e int) (sig, why string) {
 	if len(line) <= truncationWidth {
 		return "quote:wrong-line", fmt.Sprintf("quoted %q, the line of the reported offset is %q", q, line)
 	}
-	if !utf8.ValidString(q) {
+	if !utf8.ValidString(q) && utf8.ValidString(line) {
 		return "quote:invalid-utf8", fmt.Sprintf("quoted text %q is not valid UTF-8 (a rune of the line was cut)", q)
 	}
 	isView, inRange := false, false
@@ -438,9 +490,17 @@ func checkText(c Case, text string) (fs []finding, info textInfo) {
 				add("position", "pos:line-col-mismatch", where, fmt.Sprintf("%d:%d is the line:column of byte %d", line, col, e.O))
 			}
 		}
+		if e.Rule == "" && isEncodingMsg(e.Body) {
+			// the input is not valid UTF-8 at this offset: a one-line message, in the configured language
+			info.encoding = true
+			if sig, why := judgeLanguage(c.Lang, "inline", e.Body); sig != "" {
+				add("language", strings.Replace(sig, "lang:inline", "lang:encoding", 1), why, "message in "+langName(c.Lang)+" only")
+			}
+			continue
+		}
 		if e.Rule != "" {
 			info.inline = true
-			if sig, why := judgeLanguage(c.Lang, "inline", e.Body); sig != "" {
+			if sig, why := judgeLanguage(c.Lang, "inline", proseOf(e.Body)); sig != "" {
 				add("language", sig, fmt.Sprintf("rule %s: %s", e.Rule, why), "message in "+langName(c.Lang)+" only")
 			}
 			continue
@@ -483,7 +543,32 @@ func checkText(c Case, text string) (fs []finding, info textInfo) {
 	return
 }
 
+// isEncodingMsg: the one-line message of an input that is not valid UTF-8 at the reported offset.
+func isEncodingMsg(body []string) bool {
+	if len(body) != 1 {
+		return false
+	}
+	return strings.Contains(body[0], "invalid encoding") || strings.Contains(body[0], "编码")
+}
+
+// proseOf drops the quote frame of an error text embedded in an inline message (a custom parser that returned the error
+// of its own sub-parse): the quoted line and the caret line are source text, not message text.
+func proseOf(body []string) []string {
+	var out []string
+	for _, ln := range body {
+		if ln == "  |" || strings.HasPrefix(ln, gutter) {
+			continue
+		}
+		// the embedded text carries the parser's own `line:col (offset): rule name:` prefix
+		out = append(out, embeddedPrefixRe.ReplaceAllString(ln, ""))
+	}
+	return out
+}
+
+var embeddedPrefixRe = regexp.MustCompile(`^\d+:\d+ \(\d+\): (?:rule (?:"[^"]*"|\S+): )?`)
+
 type textInfo struct {
+	encoding        bool
 	entries         int
 	nonTrivial      bool
 	multiLine       bool
@@ -501,10 +586,12 @@ func checkCase(c Case, s *rt.Section) (fails []*rt.Failure, outcome string, info
 	if !utf8.ValidString(c.Input) {
 		return nil, "invalid-utf8-input", info
 	}
+	orig := c
+	c.Input, c.Bad = orig.text(), nil
 	laterChanged = false
 	text, rejected, pi := parseText(c, c.Input)
 	if laterChanged {
-		return []*rt.Failure{s.NewFailure("error-value-stable", "api:error-text-changes-after-later-parse", c, text, "the text it had when Parse returned it")}, "rejected", info
+		return []*rt.Failure{s.NewFailure("error-value-stable", "api:error-text-changes-after-later-parse", orig, text, "the text it had when Parse returned it")}, "rejected", info
 	}
 	if pi != nil {
 		return nil, "panic-in-parse", info
@@ -514,11 +601,11 @@ func checkCase(c Case, s *rt.Section) (fails []*rt.Failure, outcome string, info
 	}
 	fs, info := checkText(c, text)
 	for _, f := range fs {
-		fails = append(fails, s.NewFailure(f.oracle, f.sig, c, f.observed+"\n--- error text ---\n"+text, f.expected))
+		fails = append(fails, s.NewFailure(f.oracle, f.sig, orig, f.observed+"\n--- error text ---\n"+text, f.expected))
 	}
 	// the same text as the body of a host-built function value that two VMs share: the VM that calls it gets the body's
 	// syntax error in its own language, whichever VM called first
-	if len(c.Input) < 200 && c.Global == 0 && c.Custom == 0 {
+	if len(c.Input) < 200 && c.Global == 0 && c.Custom == 0 && len(orig.Bad) == 0 {
 		call := func(fn *ds.VMValue, lang int) (string, *rt.PanicInfo) {
 			vm := ds.NewVM()
 			vm.Config.ParseErrorLanguage = lang
@@ -536,14 +623,14 @@ func checkCase(c Case, s *rt.Section) (fails []*rt.Failure, outcome string, info
 		_, pb := call(shared, (c.Lang+1)%3)
 		after, pc := call(shared, c.Lang)
 		if pa == nil && pb == nil && pc == nil && alone != after {
-			fails = append(fails, s.NewFailure("own-language", "lang:shared-function-body-error", c,
+			fails = append(fails, s.NewFailure("own-language", "lang:shared-function-body-error", orig,
 				"called after a VM of another language called the same function value: "+after, "as when called first: "+alone))
 		}
 	}
 	if c.ViaRun {
 		t2, rej2, pi2 := runText(c, c.Input)
 		if pi2 == nil && (!rej2 || t2 != text) {
-			fails = append(fails, s.NewFailure("parse-vs-run", "api:run-text-differs", c, fmt.Sprintf("Run: %q", t2), fmt.Sprintf("Parse: %q", text)))
+			fails = append(fails, s.NewFailure("parse-vs-run", "api:run-text-differs", orig, fmt.Sprintf("Run: %q", t2), fmt.Sprintf("Parse: %q", text)))
 		}
 	}
 	return fails, "rejected", info
@@ -567,6 +654,15 @@ func classify(s *rt.Section, c Case, info textInfo) {
 	}
 	if info.inline {
 		s.Class("inline-message")
+	}
+	if info.encoding {
+		s.Class("encoding-message")
+	}
+	if len(c.Bad) > 0 {
+		s.Class("input-not-utf8")
+	}
+	if c.Custom == 3 {
+		s.Class("custom-readexpr")
 	}
 	if info.entries > 1 {
 		s.Class("several-errors")
@@ -612,7 +708,7 @@ func judge(t *rapid.T, s *rt.Section, c Case, kind string) {
 		s.Class("kind:" + kind)
 	}
 	classify(s, c, info)
-	h := rt.Hash(strconv.Itoa(c.Lang), c.Input)
+	h := rt.Hash(strconv.Itoa(c.Lang), c.text())
 	if info.nonTrivial {
 		s.NonTrivial(h)
 	}
@@ -880,7 +976,7 @@ func drawHost(t *rapid.T, c *Case) {
 		c.Global = rapid.IntRange(1, 3).Draw(t, "global")
 	}
 	if rapid.IntRange(0, 3).Draw(t, "hostCustom") == 0 {
-		c.Custom = rapid.IntRange(1, 2).Draw(t, "custom")
+		c.Custom = rapid.IntRange(1, 3).Draw(t, "custom")
 	}
 }
 
@@ -890,7 +986,7 @@ func injectCustom(t *rapid.T, c *Case) {
 	if c.Custom == 0 {
 		return
 	}
-	letter := map[int]string{1: "E", 2: "K"}[c.Custom]
+	letter := map[int]string{1: "E", 2: "K", 3: "X"}[c.Custom]
 	rs := []rune(c.Input)
 	var spots []int
 	for i := 0; i < len(rs); i++ {
@@ -907,6 +1003,10 @@ func injectCustom(t *rapid.T, c *Case) {
 			end++
 		}
 		op := letter + string(rs[at:end]) + pick(t, "customBlank", "\n", "\n", " \n", "\n\n ", " ", "\r\n", "\t\n  ")
+		if c.Custom == 3 {
+			// the operand ReadExpr reads: complete, or broken so that the sub-parse fails
+			op = letter + pick(t, "readexprOperand", "(2+", "(", "[1,", "(1 +\n", "(2+3)", "(好+", "('a", "(1))", "{", "(2 +\n 力量 *") + pick(t, "customBlank", "", " ", "\n", " \n")
+		}
 		rs = append(append(append([]rune{}, rs[:at]...), []rune(op)...), rs[end:]...)
 		spots = nil // offsets moved: one more pass only from a fresh scan
 		for i := 0; i < len(rs); i++ {
@@ -926,7 +1026,25 @@ func drawGenCase(t *rapid.T) (c Case, kind string) {
 	c, kind = drawGenCase0(t)
 	drawHost(t, &c)
 	injectCustom(t, &c)
+	drawBad(t, &c)
 	return c, kind
+}
+
+// drawBad: one case in ten is not valid UTF-8: one or two byte groups that no decoder accepts (a lone continuation byte,
+// a lead byte without its tail, an overlong form, 0xFF) inserted on rune boundaries of the text.
+func drawBad(t *rapid.T, c *Case) {
+	if rapid.IntRange(0, 9).Draw(t, "badBytes") != 0 {
+		return
+	}
+	n := rapid.IntRange(1, 2).Draw(t, "nbad")
+	for i := 0; i < n; i++ {
+		cur := c.text()
+		at := rapid.IntRange(0, len(cur)).Draw(t, "badAt")
+		for at < len(cur) && !utf8.RuneStart(cur[at]) {
+			at++
+		}
+		c.Bad = append(c.Bad, BadBytes{At: at, Hex: pick(t, "badHex", "ff", "80", "c3", "e58a", "c080", "f0288c", "bf", "fe")})
+	}
 }
 
 func drawGenCase0(t *rapid.T) (Case, string) {
@@ -1023,6 +1141,7 @@ func drawMutCase(t *rapid.T) (Case, string) {
 	c.ViaRun = rapid.IntRange(0, 7).Draw(t, "viarun") == 0
 	drawHost(t, &c)
 	injectCustom(t, &c)
+	drawBad(t, &c)
 	return c, "corpus"
 }
 
